@@ -725,6 +725,13 @@ class SymMap(Model):
   def py___setitem__(self, ip, k, v):
     self._set(ip, self.kty.enc(ip, k), self.vty.enc(ip, v))
 
+  def py_setdefault(self, ip, k, default=None):
+    kk = self.kty.enc(ip, k)
+    if ip.ctx.branch(z3.Select(self.keys, kk), 'key present'):
+      return self.vty.dec(z3.Select(self.vals, kk))
+    self._set(ip, kk, self.vty.enc(ip, default))
+    return default
+
   def py___delitem__(self, ip, k):
     kk = self.kty.enc(ip, k)
     if not ip.ctx.branch(z3.Select(self.keys, kk), 'key present'):
